@@ -12,6 +12,9 @@ STRINGS = [
     "second", "-", "**", "a = b = c", "ScalarParam(1)", "Conditional(Lt(x, 1), 1, 0)",
     # text that LOOKS like a unit expression but that the unit registry treats specially
     "1/degC", "degC*ms", "dB/ms", "degF**2", "1/ms/degC", "pH*mV",
+    # ordinary prose: long runs of words and then punctuation a unit expression cannot contain
+    "maximal conductance times the open probability of the fast sodium current (uA/uF)",
+    "see Beeler and Reuter 1977, equation 12 of the original paper.",
 ]
 
 
